@@ -111,6 +111,9 @@ type FB struct {
 
 func (c *Ctx) FB(fn *ssa.Function) *FB {
 	key := "fb"
+	if c.strictNarrow {
+		key = "fb-strict" // separate memo tables: the linear forms differ
+	}
 	m, _ := c.cache[key].(map[*ssa.Function]*FB)
 	if m == nil {
 		m = map[*ssa.Function]*FB{}
@@ -361,6 +364,13 @@ func (fb *FB) lin1(v ssa.Value) Lin {
 			return linConst(inf)
 		}
 	case *ssa.BinOp:
+		// arithmetic in 8- and 16-bit types wraps at values real files contain (a level byte of 255, a 16-bit count of
+		// 65535): it is linear only where the operand ranges keep the result inside the type
+		if fb.c.strictNarrow && narrowInt(x.Type()) && (x.Op == token.ADD || x.Op == token.SUB || x.Op == token.MUL || x.Op == token.SHL) {
+			if !fb.narrowOpFits(x) {
+				return linSym(v)
+			}
+		}
 		switch x.Op {
 		case token.ADD:
 			if isIntType(x.Type()) {
@@ -860,12 +870,153 @@ func (fb *FB) rng1(v ssa.Value) (int64, int64) {
 			if sv := fb.singleStoreLoad(x); sv != nil {
 				return fb.rng(sv)
 			}
+			// a narrow field all of whose stores in the module are bounded (type invariant, e.g. Superblock.OffsetSize)
+			if fa, ok := x.X.(*ssa.FieldAddr); ok && narrowInt(x.Type()) {
+				if f, _ := fieldOfAddr(fa); f != nil {
+					if lo, hi, ok := fb.c.fieldRange(f); ok {
+						return lo, hi
+					}
+				}
+			}
 		}
 	case *ssa.Index:
 	case *ssa.Lookup:
 	}
 	return tlo, thi
 }
+
+// fieldRange: for a field of 8/16-bit integer type of a module struct: an interval that every store to it in the module
+// respects (constants, or values bounded by the dominating tests at the store), provided the field's address never escapes
+// and the struct is never overwritten as a whole except by copies of itself. Unsigned fields only (zero value included).
+func (c *Ctx) fieldRange(f *types.Var) (int64, int64, bool) {
+	type fr struct {
+		lo, hi int64
+		ok     bool
+	}
+	m, _ := c.cache["fieldrange"].(map[*types.Var]*fr)
+	if m == nil {
+		m = map[*types.Var]*fr{}
+		c.cache["fieldrange"] = m
+	}
+	if e, ok := m[f]; ok {
+		return e.lo, e.hi, e.ok // in progress or done
+	}
+	e := &fr{}
+	m[f] = e
+	b, isB := f.Type().Underlying().(*types.Basic)
+	if !isB || (b.Kind() != types.Uint8 && b.Kind() != types.Uint16) || f.Pkg() == nil || !inModule(f.Pkg().Path()) {
+		return 0, 0, false
+	}
+	idx := c.fieldUseIndex()
+	u := idx[f]
+	if u == nil || u.escapes || len(u.stores) == 0 {
+		return 0, 0, false
+	}
+	hi := int64(0)
+	for _, st := range u.stores {
+		fb := c.FB(st.Parent())
+		if k, ok := constInt(st.Val); ok {
+			if k > hi {
+				hi = k
+			}
+			continue
+		}
+		v := fb.lin(st.Val)
+		facts := fb.blockFacts(st.Block())
+		found := false
+		for _, cand := range []int64{8, 16, 32, 64, 127} {
+			if fb.prove(linConst(cand).add(v, -1), facts, 3) {
+				if cand > hi {
+					hi = cand
+				}
+				found = true
+				break
+			}
+		}
+		if !found {
+			return 0, 0, false
+		}
+	}
+	e.lo, e.hi, e.ok = 0, hi, true
+	return 0, hi, true
+}
+
+type fieldUses struct {
+	stores  []*ssa.Store
+	escapes bool
+}
+
+// fieldUseIndex: every store to and every escape of a field address, over all module functions.
+func (c *Ctx) fieldUseIndex() map[*types.Var]*fieldUses {
+	if m, ok := c.cache["fielduses"].(map[*types.Var]*fieldUses); ok {
+		return m
+	}
+	m := map[*types.Var]*fieldUses{}
+	get := func(f *types.Var) *fieldUses {
+		if m[f] == nil {
+			m[f] = &fieldUses{}
+		}
+		return m[f]
+	}
+	// (a struct overwritten as a whole gets its field values from field stores of another instance, from a copy, or is zeroed:
+	// all covered by the per-field stores and the lower bound 0)
+	for _, fn := range c.AllFuncs {
+		instrs(fn, func(in ssa.Instruction) {
+			switch x := in.(type) {
+			case *ssa.FieldAddr:
+				f, _ := fieldOfAddr(x)
+				if f == nil || x.Referrers() == nil {
+					return
+				}
+				for _, ref := range *x.Referrers() {
+					switch r := ref.(type) {
+					case *ssa.Store:
+						if r.Addr == ssa.Value(x) {
+							get(f).stores = append(get(f).stores, r)
+						} else {
+							get(f).escapes = true
+						}
+					case *ssa.UnOp, *ssa.DebugRef:
+					case *ssa.FieldAddr, *ssa.IndexAddr:
+						// nested aggregate: not a scalar field
+					default:
+						get(f).escapes = true
+					}
+				}
+			case *ssa.MakeInterface:
+				// a pointer to a module struct handed, as an interface, to code outside the module (binary.Read, json, ...)
+				// may be filled by reflection: no range is claimed for its fields (formatting and error wrapping only read)
+				pt, ok := x.X.Type().Underlying().(*types.Pointer)
+				if !ok || x.Referrers() == nil {
+					return
+				}
+				st, ok := pt.Elem().Underlying().(*types.Struct)
+				if !ok {
+					return
+				}
+				for _, ref := range *x.Referrers() {
+					call, isCall := ref.(ssa.CallInstruction)
+					if !isCall {
+						continue
+					}
+					callee := call.Common().StaticCallee()
+					if callee != nil && callee.Pkg != nil {
+						pp := callee.Pkg.Pkg.Path()
+						if inModule(pp) || pp == "fmt" || pp == "errors" || pp == "log" {
+							continue
+						}
+					}
+					for i := 0; i < st.NumFields(); i++ {
+						get(st.Field(i)).escapes = true
+					}
+				}
+			}
+		})
+	}
+	c.cache["fielduses"] = m
+	return m
+}
+
 
 // linRange: interval of a linear form from the ranges of its symbols.
 func (fb *FB) linRange(l Lin) (int64, int64) {
@@ -964,8 +1115,52 @@ func (fb *FB) condFacts(cond ssa.Value, val bool, out []Lin) []Lin {
 		if x.Op == token.NOT {
 			return fb.condFacts(x.X, !val, out)
 		}
+	case *ssa.Lookup:
+		// set[x] for a set built in this function from constant keys (all values true): on the true edge x is one of the keys
+		if val && !x.CommaOk {
+			if lo, hi, ok := constKeySet(x.X); ok {
+				k := fb.lin(x.Index)
+				out = append(out, k.add(linConst(lo), -1), linConst(hi).add(k, -1))
+			}
+		}
 	}
 	return out
+}
+
+// constKeySet: m is a map made in the function whose only uses are updates with constant integer keys and the constant
+// value true, and look-ups; returns the smallest and largest key.
+func constKeySet(m ssa.Value) (int64, int64, bool) {
+	mk, ok := m.(*ssa.MakeMap)
+	if !ok || mk.Referrers() == nil {
+		return 0, 0, false
+	}
+	lo, hi := int64(inf), int64(ninf)
+	n := 0
+	for _, ref := range *mk.Referrers() {
+		switch u := ref.(type) {
+		case *ssa.MapUpdate:
+			k, isK := constInt(u.Key)
+			v, isV := u.Value.(*ssa.Const)
+			if u.Map != m || !isK || !isV || v.Value == nil || v.Value.Kind() != constant.Bool || !constant.BoolVal(v.Value) {
+				return 0, 0, false
+			}
+			n++
+			if k < lo {
+				lo = k
+			}
+			if k > hi {
+				hi = k
+			}
+		case *ssa.Lookup:
+			if u.X != m {
+				return 0, 0, false
+			}
+		case *ssa.DebugRef:
+		default:
+			return 0, 0, false
+		}
+	}
+	return lo, hi, n > 0
 }
 
 // blockFacts: facts that hold on entry to block b (from dominating branch edges).
@@ -1782,4 +1977,47 @@ func hasQuo(t Lin) bool {
 		}
 	}
 	return false
+}
+
+func narrowInt(t types.Type) bool {
+	b, ok := t.Underlying().(*types.Basic)
+	if !ok {
+		return false
+	}
+	switch b.Kind() {
+	case types.Uint8, types.Int8, types.Uint16, types.Int16:
+		return true
+	}
+	return false
+}
+
+// narrowOpFits: the operand ranges (type ranges refined by what is known of the values) keep x.X op x.Y inside the type.
+func (fb *FB) narrowOpFits(x *ssa.BinOp) bool {
+	alo, ahi := fb.rng(x.X)
+	blo, bhi := fb.rng(x.Y)
+	tlo, thi := fb.typeRange(x.Type())
+	var lo, hi int64
+	switch x.Op {
+	case token.ADD:
+		lo, hi = satAdd(alo, blo), satAdd(ahi, bhi)
+	case token.SUB:
+		lo, hi = satAdd(alo, -bhi), satAdd(ahi, -blo)
+	case token.MUL:
+		c := []int64{satMul(alo, blo), satMul(alo, bhi), satMul(ahi, blo), satMul(ahi, bhi)}
+		lo, hi = c[0], c[0]
+		for _, y := range c {
+			if y < lo {
+				lo = y
+			}
+			if y > hi {
+				hi = y
+			}
+		}
+	case token.SHL:
+		if blo < 0 || bhi > 16 {
+			return false
+		}
+		lo, hi = alo<<uint(blo), ahi<<uint(bhi)
+	}
+	return lo >= tlo && hi <= thi
 }
